@@ -134,6 +134,17 @@ def run_property(prop, tier, replay=None):
     if dev_only or dev_skip_design:
         os.environ["VERIF_NO_EVIDENCE"] = "1"
     for d in ([] if dev_skip_design else P.get("design", lambda c: [])(ctx)):
+        if d.get("engine") == "apalache":
+            # symbolic model checker on the typed integer reduction of the protocol model: an inductive invariant
+            # (base case, induction step, invariant => safety) for an UNBOUNDED lifetime; negative models must fail
+            outcome, out = vlib.run_apalache(d["module"], d["args"], os.path.join(workdir, "apalache-out"), timeout=d.get("timeout", 900))
+            want = d.get("expect", "NoError")
+            if outcome != want:
+                sys.stdout.write(out[-3000:] + "\n")
+                raise ToolError("Apalache %s %s: outcome %s, expected %s" % (d["module"], " ".join(d["args"]), outcome, want))
+            coverage["design_runs"].append({"engine": "apalache", "module": d["module"], "args": d["args"], "outcome": outcome, "expect": want})
+            log("design %-22s %-60s %s" % (d["module"], " ".join(d["args"])[:60], outcome + (" (negative model: as expected)" if want == "Error" else "")))
+            continue
         rc, out, st = vlib.run_tlc(d["module"], d["cfg"], os.path.join(workdir, "meta-" + d["cfg"]),
                                    workers=d.get("workers", 8), xmx=d.get("xmx", "8g"), timeout=d.get("timeout", 1500),
                                    extra=d.get("extra", ()), env=d.get("env"))
